@@ -186,7 +186,7 @@ package fosite
 //@ interface Requester.SetID
 //@   sets recv.GetID() = id
 // Setting requested scopes / audience replaces them as a set (the reference implementation drops duplicates).
-//@ spec func sameset(a []string, b []string) bool = forall x string :: insl(a, x) <==> insl(b, x)
+//@ spec func opaque sameset(a []string, b []string) bool = forall x string :: insl(a, x) <==> insl(b, x)
 //@ interface Requester.SetRequestedScopes
 //@   modifies recv.GetRequestedScopes()
 //@   ensures sameset(recv.GetRequestedScopes(), scopes)
